@@ -15,6 +15,9 @@ for dp, dns, fns in os.walk(os.path.join(root, "nrel", "hive")):
             for qn, d, cls, outer in qualnames(tree):
                 a = d.args
                 out.append([rel, qn, [x.arg for x in a.posonlyargs + a.args + a.kwonlyargs]])
+            for c in ast.walk(tree):
+                if isinstance(c, ast.ClassDef):
+                    out.append([rel, "class:" + c.name, None])
 json.dump(sorted(out), open(os.path.join(os.path.dirname(os.path.dirname(os.path.abspath(__file__))), "hivecheck", "baseline_symbols.json"), "w"))
 print(len(out), "symbols")
 
